@@ -190,6 +190,9 @@ func (h *DefaultHandler) serve(msg []byte) (err error) {
 func (h *DefaultHandler) Run() (err error) {
 	h.eventHandlers.Trigger(utils.EventConnect)
 	defer h.processRemainingErrors()
+	// Once the handler loop has ended nothing drains the outgoing queue any more:
+	// cancel the handler context so that pending and later sends return instead of blocking.
+	defer h.cancel()
 
 	for {
 		select {
